@@ -399,6 +399,22 @@ func v3ExtraPass(rec *Recorder, rng *rand.Rand, lvl string) int64 {
 				s := v3Join(ver, toks)
 				if mode == "nil-receiver" {
 					useNilReceiver = true
+					// a REJECTED vector with every optional metric defined goes through a nil receiver first: whatever the
+					// library recycles between calls must not carry its values into the next decode
+					var junk v3Vec
+					for k := 0; k < v3N; k++ {
+						junk[k] = uint8(1 + rng.Intn(len(v3Defs[k].Codes)-1))
+					}
+					jt := v3Tokens(&junk, upto, 0)
+					switch rng.Intn(3) {
+					case 0:
+						jt = append(jt, "XX:Y") // unsupported metric (deferred error)
+					case 1:
+						jt = jt[1:] // a base metric is missing
+					default:
+						jt = append(jt, jt[len(jt)-1]) // repeated metric
+					}
+					v3Decode(dec, v3Join(ver, jt))
 				} else {
 					setHook(hookQueries(rng))
 				}
